@@ -32,6 +32,8 @@ def run(cx: Cx):
     check_overrides_forward(cx, ENVQ, ['get_agents', 'get_random_agent', 'shuffle'])
     check_overrides_forward(cx, CORE + 'Agent', ['has_component'])
     from .common import include_premises
+    include_premises(cx, ['C04'], 'the queries filter the agents that were added and not removed, in joining order: residency is C04\'s',
+                     only=lambda o: o.rule in ('R-DISC', 'R-NONE') and (o.function or '').endswith(('.add_agent', '.remove_agent')))
     include_premises(cx, ['C20'], 'filtering by tag is exact only if an agent carries the tag it was given (tag 0 included)',
                      only=lambda o: 'Agent.__init__' in o.function)
 
